@@ -97,17 +97,40 @@ def check_executions(ctx, binary, executions, tag):
         ctx.sample({"source": tag, "ops": executions[len(executions) // 2][:12]})
 
 
+def label_to_op(name, args):
+    op, i, d, n = args
+    if op in ("append", "prepend", "assign", "ctord"):
+        return "%s %d %s" % (op, i, hexs(d))
+    if op in ("resize", "reserve", "rmfront", "rmback", "ctor", "attach"):
+        return "%s %d %d" % (op, i, n)
+    return "%s %d" % (op, i)
+
+
 def run(ctx):
     binary = build()
-    # 1. the reference itself
+    # 1. the Layer-1 reference itself
     r = vlib.tlc(SPECDIR, "ByteQueue", "ByteQueue.cfg", workers=8, timeout=600)
     ctx.add_tlc("ByteQueue", r)
-    # 2. direction B: random histories on the real Buffer, validated by TLC against ByteQueue
-    nexec, nops = (300, 40) if ctx.quick else (3000, 60)
+    # 2. Layer 2: the implementation-shaped model refines Layer 1, keeps the terminator and never writes outside;
+    #    its state graph is dumped and every edge becomes an implementation test (direction A)
+    cfg = "BufferImpl_small.cfg" if ctx.quick else "BufferImpl.cfg"
+    dot = os.path.join(ctx.work, "bufimpl.dot")
+    r = vlib.tlc(SPECDIR, "BufferImpl", cfg, workers=8, timeout=1500, dump=dot, coverage=False, xmx="6g")
+    ctx.add_tlc("BufferImpl", r)
+    if r.ok:
+        walks, nedges = vlib.graph_walks(dot, max_len=150, seed=ctx.seed)
+        os.remove(dot)
+        execs = [[label_to_op(*st) for st in w] for w in walks]
+        ctx.notes["graph_edges_replayed"] = nedges
+        check_executions(ctx, binary, execs, "graph")
+    # 3. direction B: random histories on two real Buffer variables, validated by TLC against ByteQueue
+    nexec, nops = (400, 40) if ctx.quick else (5000, 60)
     execs = [rand_exec(ctx.rng, nops) for _ in range(nexec)]
     check_executions(ctx, binary, execs, "random")
     return vlib.finish(ctx, "model_checking",
-                       "random op histories (two Buffer variables) + TLC generated behaviours; distinct = distinct op sequences of length>=2")
+                       "every edge of the BufferImpl state graph (TLC) replayed on the real Buffer + seeded random op "
+                       "histories over two Buffer variables; every step validated by TLC against ByteQueue; "
+                       "distinct = distinct op sequences of length >= 2")
 
 
 def replay(ctx, path):
